@@ -1,4 +1,5 @@
 import LanceModel.C32.FragLemmas
+import LanceModel.C32.SchemaLemmas
 /-
 C32 — metadata serialisation round trips.
 
@@ -84,6 +85,28 @@ theorem schema_txn_rt (s : Schema) (h : s.wfTxn = true) :
   | mk fs md =>
     simp only [Schema.wfTxn, fieldsWf, Bool.and_eq_true, decide_eq_true_eq, List.isEmpty_iff] at h
     simp [Schema.fromFields, h.1.2, h.2]
+
+/-- the attributes of one field (`From<&Field> for pb::Field` then `From<&pb::Field> for Field`), including the
+    `ARROW:extension:name` metadata entry that is written twice -/
+theorem fieldInfo_roundtrip (i : FieldInfo) (h : i.wf = true) : FieldInfo.fromPb i.toPb = i := fieldInfo_rt i h
+
+/-- the field forest: depth-first flattening followed by the parent-id rebuild is the identity on every forest whose
+    parent ids are consistent and whose ids are pairwise different and not -1 (`TreeWF`, SchemaLemmas.lean) -/
+theorem schema_fields_roundtrip (fs : List Field) (h : TreeWF fs) : unflatten (Field.flattenList fs) = some fs :=
+  fields_roundtrip_structural fs h
+
+/-- so the decidable clause `fieldsWf` of the manifest / transaction predicates follows from the structural one -/
+theorem schema_fieldsWf_of_treeWF (fs : List Field) (h : TreeWF fs) : fieldsWf fs = true := treeWF_fieldsWf fs h
+
+/-- unassigned ids (all -1) do not survive: the nested field comes back as a top-level one -/
+theorem schema_fields_counterexample : ¬ (∀ fs : List Field, unflatten (Field.flattenList fs) = some fs) := by
+  intro h
+  have := h [.mk { name := "s", id := -1, parentId := -1, logicalType := "struct", metadata := [], encoding := none,
+                   nullable := true, dictionary := none, unenforcedPrimaryKey := false }
+               [.mk { name := "c", id := -1, parentId := -1, logicalType := "int32", metadata := [], encoding := none,
+                      nullable := true, dictionary := none, unenforcedPrimaryKey := false } []]]
+  revert this
+  decide
 
 /-! ## (1) data files, deletion files, row id metadata, fragments -/
 
@@ -313,6 +336,8 @@ def schemaEx : Schema :=
                .mk { name := "b", id := 2, parentId := -1, logicalType := "string", metadata := [("m", "1")], encoding := some .varBinary,
                      nullable := false, dictionary := none, unenforcedPrimaryKey := false } []],
     metadata := [] }
+
+example : TreeWF schemaEx.fields := by unfold TreeWF; decide
 
 def txnEx (op : Operation) : Transaction :=
   { readVersion := 3, uuid := "u-1", operation := op, tag := some "t", transactionProperties := some [("k", "v")] }
